@@ -1,6 +1,36 @@
 package main
 
-// MutantReport is the checker-adequacy table of the thorough tier.
+import (
+	"encoding/json"
+	"flag"
+	"fmt"
+	"io"
+	"os"
+	"os/exec"
+	"path/filepath"
+	"sort"
+	"strings"
+	"sync"
+)
+
+// Checker adequacy by seeded variants (thorough tier). A mutant is a small source edit that
+// still type-checks and breaks one rule instance. It is applied to a scratch copy of the
+// module's Go sources under <verif>/.cache (never to /repo), the copy is analysed (never
+// executed) by a child process, and the rule must report the expected obligation key.
+type Mutant struct {
+	ID       string `json:"id"`
+	Rule     string `json:"rule"`
+	Property string `json:"property"`
+	File     string `json:"file"` // relative to the module root
+	Old      string `json:"old"`  // must occur exactly once in File, otherwise the mutant is stale
+	New      string `json:"new"`
+	// ExpectKey: obligation key that must be violation/undecided in the mutated tree and must
+	// not be so in the unmutated tree. Empty: any new failing obligation of Rule will do.
+	// The special value "FLOOR" expects the rule's instance count to fall below its floor.
+	ExpectKey string `json:"expect_key"`
+	Why       string `json:"why"`
+}
+
 type MutantReport struct {
 	Table    []map[string]interface{}
 	Total    int
@@ -9,6 +39,270 @@ type MutantReport struct {
 	Failures []string
 }
 
-func runMutants(verif, root, prop string) *MutantReport { return &MutantReport{} }
+func loadMutants(verif string) ([]Mutant, error) {
+	files, _ := filepath.Glob(filepath.Join(verif, "mutants", "*.json"))
+	sort.Strings(files)
+	var all []Mutant
+	seen := map[string]bool{}
+	for _, f := range files {
+		b, err := os.ReadFile(f)
+		if err != nil {
+			return nil, err
+		}
+		var ms []Mutant
+		if err := json.Unmarshal(b, &ms); err != nil {
+			return nil, fmt.Errorf("%s: %v", f, err)
+		}
+		for _, m := range ms {
+			if seen[m.ID] {
+				return nil, fmt.Errorf("%s: duplicate mutant id %s", f, m.ID)
+			}
+			seen[m.ID] = true
+			all = append(all, m)
+		}
+	}
+	return all, nil
+}
 
-func cmdMutants(args []string) int { return 0 }
+func copyGoTree(src, dst string) error {
+	return filepath.Walk(src, func(path string, info os.FileInfo, err error) error {
+		if err != nil {
+			return err
+		}
+		rel, _ := filepath.Rel(src, path)
+		if info.IsDir() {
+			if path != src && strings.HasPrefix(info.Name(), ".") {
+				return filepath.SkipDir
+			}
+			return nil
+		}
+		n := info.Name()
+		if !(strings.HasSuffix(n, ".go") || n == "go.mod" || n == "go.sum") || strings.HasSuffix(n, "_test.go") {
+			return nil
+		}
+		if err := os.MkdirAll(filepath.Dir(filepath.Join(dst, rel)), 0o755); err != nil {
+			return err
+		}
+		in, err := os.Open(path)
+		if err != nil {
+			return err
+		}
+		defer in.Close()
+		out, err := os.Create(filepath.Join(dst, rel))
+		if err != nil {
+			return err
+		}
+		_, err = io.Copy(out, in)
+		out.Close()
+		return err
+	})
+}
+
+func failing(r *Results, rule string) map[string]bool {
+	m := map[string]bool{}
+	for _, o := range r.Obligations {
+		if o.Rule == rule && (o.Status == Violation || o.Status == Undecided) {
+			m[o.Key] = true
+		}
+	}
+	return m
+}
+
+func analyseChild(root, rule, out string) (*Results, error) {
+	exe, err := os.Executable()
+	if err != nil {
+		return nil, err
+	}
+	cmd := exec.Command(exe, "run", "-root", root, "-rules", rule, "-brief", "-json", out)
+	cmd.Stdout, cmd.Stderr = io.Discard, io.Discard
+	if err := cmd.Run(); err != nil {
+		return nil, err
+	}
+	b, err := os.ReadFile(out)
+	if err != nil {
+		return nil, err
+	}
+	var r Results
+	if err := json.Unmarshal(b, &r); err != nil {
+		return nil, err
+	}
+	return &r, nil
+}
+
+// runMutantSet evaluates the given mutants against the tree at root.
+func runMutantSet(verif, root string, ms []Mutant, par int) *MutantReport {
+	rep := &MutantReport{}
+	if len(ms) == 0 {
+		return rep
+	}
+	scratch := filepath.Join(verif, ".cache", fmt.Sprintf("mut-%d", os.Getpid()))
+	os.RemoveAll(scratch)
+	defer os.RemoveAll(scratch)
+	// baseline per rule on the unmutated tree
+	base := map[string]*Results{}
+	for _, m := range ms {
+		if _, ok := base[m.Rule]; !ok {
+			os.MkdirAll(scratch, 0o755)
+			r, err := analyseChild(root, m.Rule, filepath.Join(scratch, "base-"+m.Rule+".json"))
+			if err != nil {
+				rep.Failures = append(rep.Failures, fmt.Sprintf("baseline analysis for rule %s failed: %v", m.Rule, err))
+				return rep
+			}
+			base[m.Rule] = r
+		}
+	}
+	type row struct {
+		m       Mutant
+		status  string
+		detail  string
+		failure string
+	}
+	rows := make([]row, len(ms))
+	sem := make(chan struct{}, par)
+	var wg sync.WaitGroup
+	for i, m := range ms {
+		wg.Add(1)
+		go func(i int, m Mutant) {
+			defer wg.Done()
+			sem <- struct{}{}
+			defer func() { <-sem }()
+			rw := row{m: m}
+			defer func() { rows[i] = rw }()
+			src, err := os.ReadFile(filepath.Join(root, m.File))
+			if err != nil || strings.Count(string(src), m.Old) != 1 {
+				rw.status, rw.detail = "stale", "the text to replace no longer occurs exactly once in "+m.File
+				return
+			}
+			dir := filepath.Join(scratch, m.ID)
+			defer os.RemoveAll(dir)
+			if err := copyGoTree(root, dir); err != nil {
+				rw.status, rw.failure = "error", "copy: "+err.Error()
+				return
+			}
+			if err := os.WriteFile(filepath.Join(dir, m.File), []byte(strings.Replace(string(src), m.Old, m.New, 1)), 0o644); err != nil {
+				rw.status, rw.failure = "error", err.Error()
+				return
+			}
+			r, err := analyseChild(dir, m.Rule, filepath.Join(dir, "out.json"))
+			if err != nil {
+				rw.status, rw.failure = "error", "analysis: "+err.Error()
+				return
+			}
+			if len(r.Errors) > 0 {
+				rw.status, rw.failure = "invalid", "mutant does not load/type-check: "+firstLine(r.Errors[0])
+				return
+			}
+			before, after := failing(base[m.Rule], m.Rule), failing(r, m.Rule)
+			switch {
+			case m.ExpectKey == "FLOOR":
+				for _, ri := range r.Rules {
+					if ri.Name == m.Rule {
+						floor := ri.Floor
+						if f, ok := ri.FloorBy[m.Property]; ok {
+							floor = f
+						}
+						n := 0
+						for _, o := range r.Obligations {
+							if o.Rule == m.Rule && o.Status != Info && has(o.Props, m.Property) {
+								n++
+							}
+						}
+						if n < floor {
+							rw.status, rw.detail = "caught", fmt.Sprintf("instances %d < floor %d", n, floor)
+						}
+					}
+				}
+			case m.ExpectKey != "":
+				if after[m.ExpectKey] && !before[m.ExpectKey] {
+					rw.status, rw.detail = "caught", m.ExpectKey
+				}
+			default:
+				for k := range after {
+					if !before[k] {
+						rw.status, rw.detail = "caught", k
+					}
+				}
+			}
+			if rw.status == "" {
+				var now []string
+				for k := range after {
+					if !before[k] {
+						now = append(now, k)
+					}
+				}
+				sort.Strings(now)
+				rw.status = "missed"
+				rw.failure = fmt.Sprintf("rule %s did not report %q on mutant %s (new failing keys: %v)", m.Rule, m.ExpectKey, m.ID, now)
+			}
+		}(i, m)
+	}
+	wg.Wait()
+	for _, rw := range rows {
+		rep.Total++
+		switch rw.status {
+		case "caught":
+			rep.Caught++
+		case "stale":
+			rep.Stale++
+		}
+		if rw.failure != "" {
+			rep.Failures = append(rep.Failures, fmt.Sprintf("mutant %s (%s): %s", rw.m.ID, rw.status, rw.failure))
+		}
+		rep.Table = append(rep.Table, map[string]interface{}{"id": rw.m.ID, "rule": rw.m.Rule, "file": rw.m.File, "status": rw.status, "detail": rw.detail + rw.failure, "why": rw.m.Why})
+	}
+	return rep
+}
+
+func runMutants(verif, root, prop string) *MutantReport {
+	all, err := loadMutants(verif)
+	if err != nil {
+		return &MutantReport{Failures: []string{"mutant catalogue: " + err.Error()}}
+	}
+	var ms []Mutant
+	for _, m := range all {
+		if m.Property == prop {
+			ms = append(ms, m)
+		}
+	}
+	return runMutantSet(verif, root, ms, 8)
+}
+
+func cmdMutants(args []string) int {
+	fs := flag.NewFlagSet("mutants", flag.ExitOnError)
+	root := fs.String("root", "/repo/src/diagonal.works/b6", "module directory")
+	verif := fs.String("verif", "/verif", "verification directory")
+	rule := fs.String("rule", "", "only mutants of this rule")
+	id := fs.String("id", "", "only this mutant")
+	file := fs.String("file", "", "read mutants from this JSON file instead of <verif>/mutants/*.json")
+	par := fs.Int("j", 8, "parallel analyses")
+	fs.Parse(args)
+	var all []Mutant
+	var err error
+	if *file != "" {
+		var b []byte
+		if b, err = os.ReadFile(*file); err == nil {
+			err = json.Unmarshal(b, &all)
+		}
+	} else {
+		all, err = loadMutants(*verif)
+	}
+	if err != nil {
+		fmt.Println("error:", err)
+		return 2
+	}
+	var ms []Mutant
+	for _, m := range all {
+		if (*rule == "" || m.Rule == *rule) && (*id == "" || m.ID == *id) {
+			ms = append(ms, m)
+		}
+	}
+	rep := runMutantSet(*verif, *root, ms, *par)
+	for _, r := range rep.Table {
+		fmt.Printf("%-8s %-28s %-16s %s\n", r["status"], r["id"], r["rule"], r["detail"])
+	}
+	fmt.Printf("mutants=%d caught=%d stale=%d failures=%d\n", rep.Total, rep.Caught, rep.Stale, len(rep.Failures))
+	if len(rep.Failures) > 0 {
+		return 1
+	}
+	return 0
+}
